@@ -6,7 +6,7 @@ response-side reading of object schemas (visitJSONObject: the `asrep` branches).
 
 Modelled branch by branch, in the order of the code:
   * HEAD requests and the status codes 304, 308, 307, 301 return nil before anything else;
-  * an empty responses map returns nil (even when IncludeResponseStatus is set);
+  * an empty responses map returns nil unless IncludeResponseStatus is set (since the fix of F-C08-3, commit c48114b);
   * Responses.Status: exact code, then the class key "1XX".."5XX" (for 100..599 only); then Default;
   * no entry: nil unless IncludeResponseStatus;
   * declared headers except the one named exactly "Content-Type", in sorted name order, first error returned
@@ -479,7 +479,7 @@ def validateResponse (canon : String → String) (reg : List (String × String))
   let keep : Out := ⟨none, some i.body⟩
   if i.method = "HEAD" then keep
   else if skipStatus i.status then keep
-  else if i.responses.isEmpty then keep
+  else if i.responses.isEmpty && !o.strict then keep
   else match statusLookup i.responses i.status with
     | none => if o.strict then ⟨some .statusNotSupported, some i.body⟩ else keep
     | some r =>
@@ -671,10 +671,7 @@ def anyHdr (i : Input) (f : Hdr → Bool) : Bool :=
 def HdrDecodedNil (canon : String → String) (i : Input) : Bool := anyHdr i (hdrDecodedNil canon i.hdrs)
 def HdrArrayNoItems (canon : String → String) (i : Input) : Bool := anyHdr i (hdrArrayNoItems canon i.hdrs)
 
-/-- F-C08-3: empty responses map under IncludeResponseStatus -/
-def EmptyMapStrict (o : Opts) (i : Input) : Bool := i.responses.isEmpty && o.strict
-
 def Excluded (canon : String → String) (o : Opts) (i : Input) : Bool :=
-  HdrDecodedNil canon i || HdrArrayNoItems canon i || EmptyMapStrict o i
+  HdrDecodedNil canon i || HdrArrayNoItems canon i
 
 end KinModel.Response
